@@ -74,4 +74,21 @@ BUILT["C17"] = dict(engine="wire-explorer", technique="exhaustive product of loo
                    text='every body of <= 2/3 lines over the look-alike pool x line endings x final newline x literal/quoted; every set of <= 2/3 names x active position x every per-name encoding',
                    note=_WIRE_NOTE, design_ref='3 C17')
 
+_FACTORY_NOTE = 'trusted base: reference list model / reference Sieve validator in /verif/mc (factory_engine.py, refsieve), CPython; bounded: history depth, definition pool, value alphabets'
+BUILT["C06"] = dict(engine='filterset-explorer', technique='exhaustive product of definition kinds x hostile values + explicit-state BFS over editing histories; reference strict validator and structure-preservation oracle',
+                   text='every condition/action kind (all fileinto tag orders, all vacation tag subsets) x every value up to the length bound; the script must be accepted, strictly valid, begin with a covering require, and keep the structure of the benign-value script with every literal decoding to the supplied value; histories over a rich pool for the require line',
+                   note=_FACTORY_NOTE, design_ref='3 C06')
+BUILT["C11"] = dict(engine='filterset-explorer', technique='explicit-state BFS over editing histories + exhaustive product of names/descriptions x marker pairs; save/load differential',
+                   text='every reachable set (history depth bound) and every name/description up to the length bound is rendered, parsed, reloaded and compared; the reloaded rendering must be a fixed point',
+                   note=_FACTORY_NOTE, design_ref='3 C11')
+BUILT["C12"] = dict(engine='filterset-explorer', technique='all operation sequences up to a bound without dedup + BFS with dedup over the real FiltersSet vs reference list model',
+                   text='every sequence of <= 3/4 of 55 events and a deduplicated BFS to depth 7/12; after every event return value, order, flags, is_filter_disabled, wrapper structure and getfilter content are compared with the list model',
+                   note=_FACTORY_NOTE, design_ref='3 C12')
+BUILT["C13"] = dict(engine='parser-state-explorer', technique='exhaustive histories over an object pool; differential vs pristine forked interpreters',
+                   text='every history of <= 3/4 events on two reused parsers, fresh parsers and two FiltersSets; each outcome is compared with the projection onto the same object run in a freshly forked pristine interpreter',
+                   note=_FACTORY_NOTE, design_ref='3 C13')
+BUILT["C19"] = dict(engine='filterset-explorer', technique='exhaustive product of supported forms x values with commas/spaces/brackets/non-ASCII; read-back differential on original / disabled / reloaded sets',
+                   text='every supported condition and action form x every value up to the length bound x anyof/allof; get_filter_conditions/actions/matchtype must equal what was supplied on the original, the disabled and the reloaded set',
+                   note=_FACTORY_NOTE, design_ref='3 C19')
+
 NOT_BUILT = {}
